@@ -81,14 +81,14 @@ claim('C20', 'Coq proof (layered lookup = cmdline ?? coerce(config) ?? default f
       'configuration file and default layer: lookup k = cmdline k ?? coerce(default k)(config k) ?? default k; the side condition holds for the '
       'table generated from options.py and subcommands/*.py (finite, forallb by vm_compute); the jugfile is argv[0] followed by the extra '
       'arguments; the jugdir expansion depends on (jugfile, date) only, for every subcommand.  Tie: real options.parse on generated command '
-      'lines x configuration files for every subcommand.',
+      'lines x configuration files for every subcommand; and options.parse(args) with NO options file (what the `jug` command does), run in fresh interpreters (32 quick / 300 thorough; the first case of each is the first parse of its process) whose HOME is a scratch directory holding every subset (systematic) and random subsets of the candidate rc files ~/.config/jug/jugrc, ~/.config/jugrc, ~/.jug/configrc (absent / file / directory = exists but unopenable) with overlapping and disjoint settings; every resolved attribute, the expanded jugdir, sys.argv and the error class are compared with Model.Options.run_home table c rc_candidates home (candidate list generated from the source by AST, proved equal to the documented list) and with the Python restatement in which the configuration file is the FIRST existing candidate only (C20_lower_priority_rc_file_never_matters, C20_lower_priority_rc_file_ignored, C20_discovered_file_is_first_existing).',
       'Kernel + vm_compute; translator harness/translate_c20.py (fail-closed ast extractor of add_argument/parse_defaults); argparse itself and '
-      'option-name abbreviations are outside the model; printable-ASCII strings.',
+      'option-name abbreviations are outside the model; printable-ASCII strings; "configuration file" means the first existing candidate only (docs/source/configuration.rst); an existing but unopenable candidate means no configuration at all (the code\'s choice; tied to the model only); a source whose rc search is not the recognised first-existing loop fails the translator, the search for a failing input still runs with the leniently extracted candidate list; os.path.expanduser/exists/open and configparser syntax are outside the model.',
       'DESIGN.md sec. 3 C20')
 
 claim('C04', 'Coq proof (per-primitive refinement of every lock program to an atomic lock specification, invariant over all interleavings, '
       'trace lemmas by induction) instantiated on the lock markers the translator extracts from the source + trace validation of the model '
-      'against the real lock classes under a lock-step scheduler + linearizability search on the observed histories',
+      'against the real lock classes under a lock-step scheduler + linearizability search on the observed histories + reopen of every persistent backend between any two primitives + connection faults on the redis backend (every command of every client lost before / after the server applied it)',
       'Theorems (Props/C04.v), for any number of clients, all operation histories, all well-formed schedules at primitive granularity, on the '
       'file, keep-alive file, redis (SETNX) and dict lock programs: exclusion; exactly one winner of a race for a free lock, the first get to '
       'return; a failed lock answers get False / is_locked True / is_failed True until a release begins and the store holds the failed marker at '
@@ -97,8 +97,8 @@ claim('C04', 'Coq proof (per-primitive refinement of every lock program to an at
       'fail() = stop the helper, then mark, is sticky against a concurrently refreshing helper (the swapped order is refuted).  The ORIGINAL redis GETSET '
       'program is refuted in Coq (D14, fixed in /repo 949240e).  Tie: every '
       'primitive (os.path.exists/os.open/unlink/utime/stat, fake-redis commands, dict_lock methods), response and returned value of the real '
-      'locks under exhaustive (curated 2-4 client plans) and random schedules equals the model\'s, evaluated in coqc.',
-      'Kernel + vm_compute; translators harness/translate_c04.py, translate_c19.py (fail-closed); atomicity of O_EXCL create/unlink/utime/stat, of '
+      'locks under exhaustive (curated 2-4 client plans) and random schedules equals the model\'s, evaluated in coqc; a reopen of the store (dict_store close() + new object on its backing file, new file / keep-alive store object, new redis connections) is a step of the model that leaves every lock as it is (C04_reopen_keeps_lock_state) and of the real histories; under lost redis connections an operation whose command is lost raises and gives no answer - checked against the model as the fault-free run of the derived history (not applied: operation left out; applied write with lost reply: operation kept, answer not compared - tie_check_lost), incl. final store and all later answers; direct oracle: never two get() that returned True without release in between, failed markers never lost, a leaked lock only after a get() that raised.',
+      'Kernel + vm_compute; translators harness/translate_c04.py, translate_c19.py (fail-closed); connection faults are not a step of the Coq model: the reduction "lost before = not sent, lost after = sent and reply ignored" relies on the command-atomic fake server and is part of the harness; no fault injection on the file/dict backends; atomicity of O_EXCL create/unlink/utime/stat, of '
       'redis commands and of dict_lock methods, well-formed use of the API (release/fail by the holder or on a failed lock) and a frozen clock '
       '>= 1801 s are explicit premises; harness: lock-step scheduler, os-level interposer, fake redis server.',
       'DESIGN.md sec. 3 C04')
@@ -123,7 +123,7 @@ claim('C09', 'Coq proof (memoised DFS = reverse reachability by induction on fue
       'is preserved; a following execute runs exactly the tasks without result, each once - also with the N-worker execution protocol of C01/C02 in place of the sequential execute: every quiet run of any number of workers calls no function of a task that kept its result and each invalidated function exactly once if it gets stored again (Proofs/ExecInvalidateFacts.v).  Tie: generated jugfiles (edges via args, kwargs, containers, '
       'tasklets, task-valued indices, mapped sequences/slices/elements, CustomHash, identity) x bare/dotted/regex targets x full/partial/non-closed/packed/'
       'empty stores x file/packed/dict/fake-redis: exact remove_many argument, exact remove() sequence of every shell call, keys after, printed table, '
-      'keys dumped by the next execute; oracle re-evaluates the program after the target\'s functions changed.',
+      'keys dumped by the next execute; oracle re-evaluates the program after the target\'s functions changed; incl. jugfiles that select their backend themselves with jug.set_jugdir (the --jugdir argument names another location; run through jug.jug.main; effects observed on the store the tasks use) and tasks whose result is None.',
       'Kernel + vm_compute; graph = what Task.dependencies() yields (link to syntactic dependencies: C03/C16, checked dynamically here); matcher is an oracle; '
       'per-backend remove_many refinement from C06; fake redis; no concurrent modification; wf_dag checked per observed graph.',
       'DESIGN.md sec. 3 C09')
@@ -132,7 +132,7 @@ claim('C15', 'Coq proof (classification = specification by case analysis; counte
       'dependency is not stored, else failed/active/ready by its lock; exactly one column; cells, per-name sums and the Total row add up to the tasks; for every '
       'history in which results only grow (locks arbitrary) every cached call prints what the uncached command prints (sticky finished/ready entries stay true); '
       'check = 0 iff every task is complete, on every store state; in every reachable state of the N-worker execution protocol (Model/Exec.v) the column says what workers can do: complete - never started again, waiting - a dependency is missing and no worker can start it, failed - nobody can acquire the lock, active - a worker is between get and release on it (or died there), ready - any idle worker can lock, re-check and call the function right now (Proofs/ExecStatusFacts.v); the cached mode accepts exactly the jugfiles whose dependencies are created before their consumers (its documented precondition) and refuses the others.  Tie: generated jugfiles x 2-4-state monotone histories x held/failed locks x file/packed/dict/'
-      'fake-redis: every table cell, Total row, exit status, and the full sqlite cache content after every call.',
+      'fake-redis: every table cell, Total row, exit status, and the full sqlite cache content after every call; incl. stored results that are None / falsy, states packed by the real `jug pack` and by update_pack(), and jugfiles that select their backend with jug.set_jugdir.',
       'Kernel + vm_compute; graph = what Task.dependencies() yields; wf_dag checked per observed graph; results not removed and jugfile unchanged between cached calls '
       '(hypotheses of the property); fake redis; sqlite3 and the table/cache parsers trusted; no concurrent modification during a command.',
       'DESIGN.md sec. 3 C15')
